@@ -1,4 +1,5 @@
 import Mp4ff.Driver.C13
+import Mp4ff.Driver.C14
 /-! `mp4ffdrv`: one request per input line, one response per output line. -/
 open Mp4ff.Driver
 
@@ -7,6 +8,9 @@ def respond (line : String) : String :=
   | [] => ""
   | op :: args =>
     match C13.dispatch op args with
+    | some r => r
+    | none =>
+    match C14.dispatch op args with
     | some r => r
     | none => "bad-op"
 
